@@ -311,7 +311,9 @@ func Run(w Workload, dir string) (res Result) {
 			}
 		}
 		if expectNoChange {
-			if ok, why := cur.img.Equal(prev.img, lp); !ok {
+			// SQLite does not journal free-list leaf pages it reuses (their content is "don't care"), so a
+			// rolled-back transaction may leave other bytes in them: compare everything but those leaves
+			if ok, why := equalButFreeLeaves(prev.img, cur.img, lp); !ok {
 				d["why"] = why
 				if os.Getenv("VERIF_T3_DEBUG") != "" {
 					for pg := uint32(1); pg <= cur.img.N; pg++ {
@@ -502,4 +504,43 @@ func clip(s string) string {
 		return s[:160] + "..."
 	}
 	return s
+}
+
+// freeLeaves returns the free-list leaf pages of a database image (trunk pages are structure and are
+// journaled like any other page).
+func freeLeaves(im sim.Image) map[uint32]bool {
+	out := map[uint32]bool{}
+	p1 := im.Pages[1]
+	if len(p1) < 40 {
+		return out
+	}
+	trunk := binary.BigEndian.Uint32(p1[32:])
+	for hops := 0; trunk != 0 && trunk <= im.N && hops < 100000; hops++ {
+		t := im.Pages[trunk]
+		if len(t) < 8 {
+			break
+		}
+		n := binary.BigEndian.Uint32(t[4:])
+		for i := uint32(0); i < n && int(8+4*i+4) <= len(t); i++ {
+			out[binary.BigEndian.Uint32(t[8+4*i:])] = true
+		}
+		trunk = binary.BigEndian.Uint32(t[0:])
+	}
+	return out
+}
+
+func equalButFreeLeaves(a, b sim.Image, lock uint32) (bool, string) {
+	if a.N != b.N {
+		return false, fmt.Sprintf("size %d <> %d", a.N, b.N)
+	}
+	free := freeLeaves(a)
+	for p := uint32(1); p <= a.N; p++ {
+		if p == lock || free[p] {
+			continue
+		}
+		if string(a.Pages[p]) != string(b.Pages[p]) {
+			return false, fmt.Sprintf("page %d differs (not a free-list leaf)", p)
+		}
+	}
+	return true, ""
 }
